@@ -472,28 +472,23 @@ def check_formats(ctx: Context, rep) -> None:
     elts = lit.slice.elts if isinstance(lit.slice, ast.Tuple) else [lit.slice]
     members = {e.value for e in elts if isinstance(e, ast.Constant)}
     n = 0
+    from sa import norm
+    from sa.context import raises_in
+    from sa.dispatch import literal_dispatches
     for f in ctx.repo.module(C.ITER_MOD).functions.values():
-        for m in f.body_nodes():
-            if isinstance(m, ast.Match) and (dotted(m.subject) or
-                                             "").endswith("shard_file_type"):
-                n += 1
-                arms: set = set()
-                default_raises = False
-                for case in m.cases:
-                    lits = case_literals(case.pattern)
-                    if lits is not None:
-                        arms |= set(lits)
-                    elif isinstance(case.pattern,
-                                    ast.MatchAs) and case.pattern.pattern is None:
-                        from sa.context import raises_in
-                        default_raises = raises_in(case.body)
-                rep.ob("C12.formats", arms <= members and default_raises,
-                       loc=f.loc(m), where=f.qualname,
-                       construct=f"match shard_file_type arms={sorted(arms)}",
-                       message="arms are members of ShardFileTypeT "
-                       f"{sorted(members)} and the default arm raises")
+        for d in literal_dispatches(f.body_nodes()):
+            if not norm.canon(f, d.subject).endswith("shard_file_type"):
+                continue
+            n += 1
+            arms = {x for lits, _ in d.arms for x in lits}
+            default_raises = d.default is not None and raises_in(d.default)
+            rep.ob("C12.formats", arms <= members and default_raises,
+                   loc=f.loc(d.node), where=f.qualname,
+                   construct=f"dispatch on shard_file_type arms={sorted(arms)}",
+                   message="arms are members of ShardFileTypeT "
+                   f"{sorted(members)} and the default arm raises")
     if n < 3:
-        raise AnalysisError(f"C12.formats: only {n} match statements found")
+        raise AnalysisError(f"C12.formats: only {n} format dispatches found")
 
 
 SELFTESTS = [
